@@ -1125,7 +1125,21 @@ func (e *executor) executeGroupBy(ctx context.Context, index string, c *pql.Call
 			return nil, errors.Wrap(err, "getting column")
 		}
 		if hasLimit || hasCol { // we need to perform this query cluster-wide ahead of executeGroupByShard
-			childRows[i], err = e.executeRows(ctx, index, child, shards, opt)
+			rowsShards, rowsOpt := shards, opt
+			if opt.Remote {
+				// This node was handed the GroupBy for its own shards only,
+				// but these rows are defined over the whole index: ask the
+				// cluster, not just the local shards.
+				idx := e.Holder.Index(index)
+				if idx == nil {
+					return nil, ErrIndexNotFound
+				}
+				rowsShards = idx.AvailableShards().Slice()
+				o := *opt
+				o.Remote = false
+				rowsOpt = &o
+			}
+			childRows[i], err = e.executeRows(ctx, index, child, rowsShards, rowsOpt)
 			if err != nil {
 				return nil, errors.Wrap(err, "getting rows for ")
 			}
@@ -1150,6 +1164,13 @@ func (e *executor) executeGroupBy(ctx context.Context, index string, c *pql.Call
 		return nil, err
 	}
 	results, _ := other.([]GroupCount)
+
+	// A remote node returns its partial result (already cut to offset+limit
+	// groups by the merge); offset and limit apply to the merged result of
+	// all nodes and are the coordinating node's business.
+	if opt.Remote {
+		return results, nil
+	}
 
 	// Apply offset.
 	if offset, hasOffset, err := c.UintArg("offset"); err != nil {
